@@ -29,6 +29,9 @@ class C06(Check):
         import pydl.photoop.photoobj as P
         self.S, self.P = S, P
         for n in ('sdss_objid', 'sdss_specobjid', 'unwrap_specobjid'):
+            self.brd.attach(self.rec, S, n, every=3, own=True)
+        self.brd.attach(self.rec, P, 'unwrap_objid', every=3, own=True)
+        for n in ('sdss_objid', 'sdss_specobjid', 'unwrap_specobjid'):
             self.rec.wrap(S, n)
         self.rec.wrap(P, 'unwrap_objid')
         for f in (S.sdss_objid, S.sdss_specobjid, S.unwrap_specobjid, P.unwrap_objid):
